@@ -3,7 +3,7 @@ From Coq Require Import List NArith Bool String Lia Permutation.
 From JV.lib Require Import Bytes.
 From JV.gen Require Import DirectiveTables TagName.
 From JV.model Require Import ScannerSem Core Description PathParams TagTitle Catalog.
-From JV.proofs Require Import BytesLemmas TagNameProofs CatalogProofs FaithfulProofs ContentProofs InfoProofs FaithfulExamples LocalityProofs OrderProofs FrameProofs InsertProofs.
+From JV.proofs Require Import BytesLemmas TagNameProofs CatalogProofs FaithfulProofs ContentProofs InfoProofs FaithfulExamples LocalityProofs OrderProofs FrameProofs InsertProofs TagFrameProofs TagInsertProofs.
 Import ListNotations.
 Open Scope N_scope.
 Local Open Scope string_scope.
@@ -72,5 +72,15 @@ Proof.
   do 4 eexists.
   split; [vm_compute; reflexivity|]. split; [vm_compute; reflexivity|]. split; [vm_compute; reflexivity|].
   split; [vm_compute; reflexivity|]. split; [vm_compute; reflexivity|]. split; [vm_compute; reflexivity|].
+  split; [vm_compute; reflexivity|]. split; vm_compute; reflexivity.
+Qed.
+
+Definition ex_new_tag : dtree := L KTAG "TAG" 400 [("TagName", "@zz")] [] "Unused" None [].
+Lemma tag_insertion_example :
+  exists c c1, ex_build ex_full_forest = COk c /\ ex_build (ex_mid 2 ex_new_tag) = COk c1 /\
+    map fst (c_tags c) = [bs "@pets"; bs "@dogs"; bs "@rpc"] /\
+    map fst (c_tags c1) = [bs "@zz"; bs "@pets"; bs "@dogs"; bs "@rpc"] /\ c1 = upd_tags c (c_tags c1).
+Proof.
+  do 2 eexists. split; [vm_compute; reflexivity|]. split; [vm_compute; reflexivity|].
   split; [vm_compute; reflexivity|]. split; vm_compute; reflexivity.
 Qed.
